@@ -8,9 +8,11 @@
 (* ANSWERED and WHICH HEAD ROOT it reported, and for every root of the call what the header      *)
 (* nodes did for it (ok0 / ok1 / fail / never) and whether the cache had been told the root      *)
 (* beforehand (block event).  When a response is available to the collector - and with which     *)
-(* score - is then derived by CollectorLookup.tla (Answer / FetchDone), not by the harness:      *)
-(* a lookup takes its own header's time.  The collector's tie-break lookups (majority            *)
-(* strategies) may delay the return, never past the hard time-out.                               *)
+(* score - is then derived by CollectorLookup.tla (Answer / FetchDone): a lookup takes its own   *)
+(* header's time - the phase is the one compatible with the instant `avail` = answer instant     *)
+(* (+ the header's scripted latency on a miss; the hard deadline when the context cuts the       *)
+(* fetch), an environment-side fact, classified like every other instant.  The collector's       *)
+(* tie-break lookups (majority strategies) may delay the return, never past the hard time-out.   *)
 EXTENDS CollectorLookup, TraceLib
 
 VARIABLE l
@@ -72,6 +74,11 @@ InCall == pc # "done" /\ l > 1 /\ l <= TraceLen /\ Trace[l].ev = "Return" /\ Tra
 
 Silent(A) == InCall /\ A /\ l' = l
 
+\* the node has answered and its goroutine looks the head root up: the response is available in a phase compatible
+\* with the instant at which the lookup's own duration has passed (avail: when the node answered for a root the cache
+\* knew, that plus the header's latency otherwise, the hard deadline when the fetch is cut by the context)
+TraceAnswer(p) == Silent(Answer(p)) /\ PhaseOK(ph'[p], Trace[l - 1].obs[p].avail, Trace[l - 1].T)
+
 \* an answer the collector saw cannot have been given after the strategy returned
 TraceRespond(p) == Silent(LRespond(p)) /\ Trace[l - 1].obs[p].t <= Trace[l].t
 
@@ -95,7 +102,7 @@ TraceReturn ==
 TraceNext ==
     \/ TraceReset
     \/ TraceReturn
-    \/ \E p \in Provs : TraceRespond(p) \/ Silent(Answer(p)) \/ Silent(FetchDone(p))
+    \/ \E p \in Provs : TraceRespond(p) \/ TraceAnswer(p) \/ Silent(FetchDone(p))
     \/ \E p \in Provs : Silent(Loop(RecvResp(p))) \/ Silent(Loop(RecvErr(p)))
     \/ Silent(Loop(SelectSoft)) \/ Silent(Loop(SelectHard)) \/ Silent(Loop(ExitLoop1))
     \/ Silent(TbStart) \/ Silent(TbFin) \/ Silent(TbHard) \/ Silent(TbGiveUp) \/ Silent(TbDone)
